@@ -220,16 +220,26 @@ class VFSZip(VFS_Real):
             lastsymlinklen = len(symlinkinodes)
             newsymlinkinodes = []
             for item in symlinkinodes:
+                if not item["dest"]:
+                    # No target at all: dangling.
+                    continue
                 if item["dest"][0] == "/":
                     dest = item["dest"][1:]
                 else:
                     dest = os.path.join(os.path.dirname(item["pathname"]), item["dest"])
-                    dest = os.path.normpath(dest)
+                # "sub/", "sub/..", "." -> the entry they name; the archive's
+                # top directory is the empty path.
+                dest = os.path.normpath(dest) if dest else ""
+                if dest == ".":
+                    dest = ""
                 if self._isentryincache(dest):
                     item["dirlevel"][item["filename"]] = self._getcacheinode(dest)
                 else:
                     newsymlinkinodes.append(item)
             symlinkinodes = newsymlinkinodes
+            # A path that was missing only because it goes through a link
+            # resolved in this pass must be looked up again.
+            self.invalid_paths.clear()
 
     def _islinkinfo(self, info: zipfile.ZipInfo) -> bool:
         return stat.S_ISLNK(info.external_attr >> 16)
